@@ -40,56 +40,62 @@ DropVal(h, v) == IF Owns(v) THEN HDealloc(h, v.ptr, v.cap) ELSE h
 Init == reg = [r \in Regs |-> None] /\ buf = NoBuf /\ heap = EmptyHeap /\ known = FALSE
 
 (* ---- constructors ---- *)
-FromWord(r) == \E nz \in {0, 1} :
+FromWord(r) ==
   /\ reg[r] = None
-  /\ reg' = [reg EXCEPT ![r] = V(A_FromWord(nz), FALSE, 0, FALSE)]
+  /\ \E nz \in {0, 1} : reg' = [reg EXCEPT ![r] = V(A_FromWord(nz), FALSE, 0, FALSE)]
   /\ UNCHANGED <<buf, heap, known>>
-FromDword(r) == \E nw \in {0, 1, 2} :
+FromDword(r) ==
   /\ reg[r] = None
-  /\ reg' = [reg EXCEPT ![r] = V(A_FromDword(nw), FALSE, 0, FALSE)]
+  /\ \E nw \in {0, 1, 2} : reg' = [reg EXCEPT ![r] = V(A_FromDword(nw), FALSE, 0, FALSE)]
   /\ UNCHANGED <<buf, heap, known>>
 \* UBig/IBig::from_static_words: the heap variant borrows static memory and owns nothing
-FromStaticWords(r) == \E n \in 0..MaxWords, neg \in BOOLEAN :
+FromStaticWords(r) ==
   /\ reg[r] = None
-  /\ LET s == A_FromStatic(n) IN
-     reg' = [reg EXCEPT ![r] = V(s, A_WithSign(s, FALSE, neg), StaticPtr, n > 2)]
+  /\ \E n \in 0..MaxWords, neg \in BOOLEAN :
+       LET s == A_FromStatic(n) IN
+       reg' = [reg EXCEPT ![r] = V(s, A_WithSign(s, FALSE, neg), StaticPtr, n > 2)]
   /\ UNCHANGED <<buf, heap, known>>
-Ones(r) == \E n \in 0..(WB * MaxWords) :
+Ones(r) ==
   /\ reg[r] = None
-  /\ LET s == A_Ones(n, WB, FixOnes) IN
-     IF s.cap <= 2
-     THEN /\ reg' = [reg EXCEPT ![r] = V(s, FALSE, 0, FALSE)]
-          /\ UNCHANGED heap
-     ELSE LET p == Fresh(heap) IN
-          /\ heap' = HAlloc(heap, p, s.cap)
-          /\ reg' = [reg EXCEPT ![r] = V(s, FALSE, p, FALSE)]
-  /\ known' = (known \/ (~FixOnes /\ n = 2 * WB))
+  /\ \E n \in 0..(WB * MaxWords) :
+       /\ LET s == A_Ones(n, WB, FixOnes) IN
+          IF s.cap <= 2
+          THEN /\ reg' = [reg EXCEPT ![r] = V(s, FALSE, 0, FALSE)]
+               /\ UNCHANGED heap
+          ELSE LET p == Fresh(heap) IN
+               /\ heap' = HAlloc(heap, p, s.cap)
+               /\ reg' = [reg EXCEPT ![r] = V(s, FALSE, p, FALSE)]
+       /\ known' = (known \/ (~FixOnes /\ n = 2 * WB))
   /\ UNCHANGED buf
 
 (* ---- the Buffer in flight ---- *)
-BufAllocate == \E n \in 0..MaxWords :
+BufAllocate ==
   /\ buf = NoBuf
-  /\ LET p == Fresh(heap) c == DefaultCapacity(n) IN
-     /\ heap' = HAlloc(heap, p, c)
-     /\ buf' = [k |-> "buf", cap |-> c, len |-> 0, ptr |-> p]
+  /\ \E n \in 0..MaxWords :
+       LET p == Fresh(heap) c == DefaultCapacity(n) IN
+       /\ heap' = HAlloc(heap, p, c)
+       /\ buf' = [k |-> "buf", cap |-> c, len |-> 0, ptr |-> p]
   /\ UNCHANGED <<reg, known>>
-BufAllocateExact == \E c \in 1..MaxCap :
+BufAllocateExact ==
   /\ buf = NoBuf
-  /\ LET p == Fresh(heap) IN
-     /\ heap' = HAlloc(heap, p, c)
-     /\ buf' = [k |-> "buf", cap |-> c, len |-> 0, ptr |-> p]
+  /\ \E c \in 1..MaxCap :
+       LET p == Fresh(heap) IN
+       /\ heap' = HAlloc(heap, p, c)
+       /\ buf' = [k |-> "buf", cap |-> c, len |-> 0, ptr |-> p]
   /\ UNCHANGED <<reg, known>>
 \* push / push_slice / truncate: any length within the capacity (the pushes assert it); the words
 \* written are arbitrary (how many of them are significant is decided when the buffer is consumed)
-BufFill == \E l \in 0..MaxCap :
-  /\ buf.k = "buf" /\ l <= buf.cap /\ l # buf.len
-  /\ buf' = [buf EXCEPT !.len = l]
+BufFill ==
+  /\ buf.k = "buf"
+  /\ \E l \in 0..MaxCap : l <= buf.cap /\ l # buf.len /\ buf' = [buf EXCEPT !.len = l]
   /\ UNCHANGED <<reg, heap, known>>
 \* ensure_capacity(n): reallocate(n) iff n > capacity and n > 2
-BufEnsureCapacity == \E n \in 3..MaxWords :
-  /\ buf.k = "buf" /\ n > buf.cap /\ n >= buf.len
-  /\ heap' = HRealloc(heap, buf.ptr, buf.cap, DefaultCapacity(n), buf.ptr)
-  /\ buf' = [buf EXCEPT !.cap = DefaultCapacity(n)]
+BufEnsureCapacity ==
+  /\ buf.k = "buf"
+  /\ \E n \in 3..MaxWords :
+       /\ n > buf.cap /\ n >= buf.len
+       /\ heap' = HRealloc(heap, buf.ptr, buf.cap, DefaultCapacity(n), buf.ptr)
+       /\ buf' = [buf EXCEPT !.cap = DefaultCapacity(n)]
   /\ UNCHANGED <<reg, known>>
 BufDrop ==
   /\ buf.k = "buf"
@@ -105,14 +111,16 @@ BufIntoBoxedSlice ==
   /\ UNCHANGED <<reg, known>>
 \* Repr::from_buffer: pop_zeros; 0..2 words -> inline, the Buffer is dropped; otherwise shrink_to_fit
 \* (realloc iff capacity > max_compact_capacity) and transmute
-FromBuffer(r) == \E nz \in 0..MaxCap :
-  /\ reg[r] = None /\ buf.k = "buf" /\ nz <= buf.len
-  /\ LET s == A_FromBuffer(buf.cap, nz) IN
-     IF nz <= 2
-     THEN /\ heap' = HDealloc(heap, buf.ptr, buf.cap)
-          /\ reg' = [reg EXCEPT ![r] = V(s, FALSE, 0, FALSE)]
-     ELSE /\ heap' = IF s.cap # buf.cap THEN HRealloc(heap, buf.ptr, buf.cap, s.cap, buf.ptr) ELSE heap
-          /\ reg' = [reg EXCEPT ![r] = V(s, FALSE, buf.ptr, FALSE)]
+FromBuffer(r) ==
+  /\ reg[r] = None /\ buf.k = "buf"
+  /\ \E nz \in 0..MaxCap :
+       /\ nz <= buf.len
+       /\ LET s == A_FromBuffer(buf.cap, nz) IN
+          IF nz <= 2
+          THEN /\ heap' = HDealloc(heap, buf.ptr, buf.cap)
+               /\ reg' = [reg EXCEPT ![r] = V(s, FALSE, 0, FALSE)]
+          ELSE /\ heap' = IF s.cap # buf.cap THEN HRealloc(heap, buf.ptr, buf.cap, s.cap, buf.ptr) ELSE heap
+               /\ reg' = [reg EXCEPT ![r] = V(s, FALSE, buf.ptr, FALSE)]
   /\ buf' = NoBuf
   /\ UNCHANGED known
 \* Repr::into_buffer (positive, owned value): inline values get a fresh Buffer, heap values are transmuted
@@ -165,9 +173,9 @@ Neg(r) ==
   /\ reg' = [reg EXCEPT ![r].neg = A_Neg(reg[r], reg[r].neg)]
   /\ reg' # reg
   /\ UNCHANGED <<buf, heap, known>>
-WithSign(r) == \E want \in BOOLEAN :
+WithSign(r) ==
   /\ IsVal(reg[r]) /\ ~reg[r].st
-  /\ reg' = [reg EXCEPT ![r].neg = A_WithSign(reg[r], reg[r].neg, want)]
+  /\ \E want \in BOOLEAN : reg' = [reg EXCEPT ![r].neg = A_WithSign(reg[r], reg[r].neg, want)]
   /\ reg' # reg
   /\ UNCHANGED <<buf, heap, known>>
 
@@ -183,14 +191,15 @@ ForgetStatic(r) ==
   /\ reg' = [reg EXCEPT ![r] = None]
   /\ UNCHANGED <<buf, heap, known>>
 
-\* states reached through the open finding are not explored further (nothing is demanded of them)
-Step ==
+Next ==
   \/ BufAllocate \/ BufAllocateExact \/ BufFill \/ BufEnsureCapacity \/ BufDrop \/ BufIntoBoxedSlice
   \/ \E r \in Regs : \/ FromWord(r) \/ FromDword(r) \/ FromStaticWords(r) \/ Ones(r) \/ FromBuffer(r)
                      \/ IntoBuffer(r) \/ Neg(r) \/ WithSign(r) \/ Drop(r) \/ ForgetStatic(r)
                      \/ \E s \in Regs : Clone(r, s) \/ CloneFrom(r, s)
-Next == ~known /\ Step
 Spec == Init /\ [][Next]_vars
+\* CONSTRAINT of the `known \/ Def` runs: states reached through the open finding are not explored
+\* further (nothing is demanded of them)
+Untainted == ~known
 
 (* ---- invariants ---- *)
 Triple(v) == [neg |-> v.neg, cap |-> v.cap, len |-> v.len, heap |-> v.cap > 2]
